@@ -201,11 +201,25 @@ class Cell(NullCell):
         """
         if result is None:
             result = {}
-        if self in result:
-            result.pop(self)
-        result[self] = None
-        for ref in self.refs:
-            ref.order(result)
+        # Every cell has to come after all cells referencing it. Visit each distinct cell once
+        # (depth-first, children in reverse): the reversed finishing order is such an order, and it is
+        # the order in which a cell is placed after its last occurrence in the unfolded tree.
+        finished = []
+        visited = {self}
+        stack = [(self, iter(reversed(self.refs)))]
+        while stack:
+            cell, refs = stack[-1]
+            for ref in refs:
+                if ref not in visited:
+                    visited.add(ref)
+                    stack.append((ref, iter(reversed(ref.refs))))
+                    break
+            else:
+                finished.append(cell)
+                stack.pop()
+        for cell in reversed(finished):
+            result.pop(cell, None)
+            result[cell] = None
         return result
 
     def serialize(self, indexes: dict, byte_len: int) -> bytes:
